@@ -278,7 +278,8 @@ def compare_back(part, wit, field, back, obs, f, S, pert, emb, close, complete):
 
 # ------------------------------------------------------------------ channel T
 DIM_POOL = [("x", "y", "z", "x3"), ("a", "b", "c", "d"), ("z", "y", "x", "w"), ("x0", "x1", "x2", "x3")]
-UNIT_POOL = ["m", "nm", "s", "um", "km", "rad"]
+FAR = embed.Embedding("far-1e6", 1e-3, 1000.0, False)
+UNIT_POOL = ["m", "nm", "s", "um", "km", "rad", ""]   # "" = a dimensionless axis (legal for Region; seeded change C17-21 dropped empty units on export)
 LABEL_POOL = {1: [[], [], ["s"]], 2: [["x", "y"], ["m_mag", "m_phase"]], 3: [["x", "y", "z"], ["mz", "mx", "my"]],
               4: [["v0", "v1", "v2", "v3"], ["d", "c", "b", "a"]]}
 REMOVABLE = ["cell", "pmin", "pmax", "tolerance_factor", "nvdim", "cunits", "vcoord", "vdim"]
@@ -421,7 +422,9 @@ def run_traces(ctx, df, ntraces, embs):
 
 def run(ctx):
     df = core.import_library()
-    embs = embed.for_tier(ctx.tier, ctx.seed)
+    # a mesh a million quanta (250 000 cells) away from the origin: "evenly spaced" is a statement about the spacings, not about
+    # the size of the coordinates (seeded change C17-23 tested the spacing relative to the coordinate magnitude)
+    embs = embed.for_tier(ctx.tier, ctx.seed) + [FAR]
     r = ctx.model("MC_C17", f"C17_{ctx.tier}.cfg", dump=True)
     if r.ok:
         states = ctx.dump_states(r)
@@ -467,7 +470,7 @@ def replay(ctx, path):
     with open(path) as fh:
         rp = json.load(fh)
     w = rp["witness"]
-    embs = {e.name: e for e in embed.DYADIC + embed.REAL + embed.seeded(rp.get("seed", ctx.seed), 2)}
+    embs = {e.name: e for e in embed.DYADIC + embed.REAL + embed.seeded(rp.get("seed", ctx.seed), 2) + [FAR]}
     emb = embs[w["embedding"]]
     if w.get("channel") == "T":
         print("trace witness (re-run the check with the same VERIF_SEED to regenerate):", json.dumps(w)[:1500])
